@@ -156,7 +156,6 @@ func isByteSeqT(t types.Type) bool {
 	return false
 }
 
-
 // DumpIndexSites prints the index sites of a function.
 func DumpIndexSites(p *Program, spec string) {
 	fn := p.Func(spec)
